@@ -5,6 +5,7 @@
 #include "objectives.h"
 #include <nano/core/verif.h>
 #include <nano/solver.h>
+#include <sstream>
 #include <nano/solver/bundle.h>
 
 using namespace nano;
@@ -401,6 +402,17 @@ void sharp_case(vt::Rng& rng, int64_t icase, bool small_bundle = false)
     const auto gap   = function.vgrad(state.x());
     const auto dist  = (state.x() - xstar).lpNorm<2>();
     const auto bound = id == "ellipsoid" ? 10.0 * eps : 2.0 * eps * std::sqrt(static_cast<double>(n)) * (1.0 + dist);
+    if (std::getenv("VERIF_DEBUG") != nullptr && state.status() == solver_status::converged && !(gap <= bound))
+    {
+        std::fprintf(stderr, "case %lld %s n=%d gap=%.6g bound=%.6g dist=%.6g eps=%.6g evals=%lld\n", static_cast<long long>(icase), id.c_str(), static_cast<int>(n), gap, bound, dist, eps,
+                     static_cast<long long>(counting.evals().size()));
+        for (const auto& p : solver->parameters())
+        {
+            std::ostringstream os;
+            os << p;
+            std::fprintf(stderr, "    %s\n", os.str().c_str());
+        }
+    }
     int64_t    nF = static_cast<int64_t>(counting.evals().size()), nG = 0;
     for (const auto& e : counting.evals())
     {
